@@ -98,12 +98,15 @@ type Path struct {
 
 // Interp evaluates cache-layer functions.
 type Interp struct {
-	P        *core.Prog
-	M        *core.Model
-	Opaque   map[*ssa.Function]string // in-package functions kept as opaque role terms
-	MaxPaths int
-	paths    int
-	Overflow bool
+	P      *core.Prog
+	M      *core.Model
+	Opaque map[*ssa.Function]string // in-package functions kept as opaque role terms
+	// FieldRole maps unexported struct field names to canonical role names (item value / expiration, settings),
+	// so that tables do not depend on identifier spelling. Names not listed are kept.
+	FieldRole map[string]string
+	MaxPaths  int
+	paths     int
+	Overflow  bool
 }
 
 type frame struct {
@@ -134,8 +137,9 @@ func (it *Interp) Run(fn *ssa.Function) []Path {
 	var out []Path
 	st := newState()
 	var args []*Term
-	for _, p := range fn.Params {
-		args = append(args, Leaf("param", p.Name()))
+	for i := range fn.Params {
+		// parameters are named by position (a0 = receiver), not by identifier
+		args = append(args, Leaf("param", fmt.Sprintf("a%d", i)))
 	}
 	it.paths = 0
 	it.call(fn, args, nil, st, 0, func(s *State, rets []*Term) {
@@ -223,7 +227,7 @@ func (it *Interp) val(fr *frame, v ssa.Value, st *State) *Term {
 	}
 	switch x := v.(type) {
 	case *ssa.Const:
-		return constTerm(x)
+		return it.constTerm(x)
 	case *ssa.Function:
 		return &Term{Op: "closure", K: core.FuncName(x), Fn: x}
 	case *ssa.Global:
@@ -234,9 +238,9 @@ func (it *Interp) val(fr *frame, v ssa.Value, st *State) *Term {
 	return Leaf("undef", v.Name())
 }
 
-func constTerm(c *ssa.Const) *Term {
+func (it *Interp) constTerm(c *ssa.Const) *Term {
 	if c.Value == nil {
-		return zeroOf(c.Type())
+		return it.zeroOf(c.Type())
 	}
 	switch c.Value.Kind() {
 	case constant.Bool:
@@ -255,7 +259,7 @@ func typeShort(t types.Type) string {
 	return types.TypeString(t, func(*types.Package) string { return "" })
 }
 
-func zeroOf(t types.Type) *Term {
+func (it *Interp) zeroOf(t types.Type) *Term {
 	switch u := t.Underlying().(type) {
 	case *types.Struct:
 		// time.Time and friends stay opaque zero
@@ -265,8 +269,8 @@ func zeroOf(t types.Type) *Term {
 		var names []string
 		var vals []*Term
 		for i := 0; i < u.NumFields(); i++ {
-			names = append(names, u.Field(i).Name())
-			vals = append(vals, zeroOf(u.Field(i).Type()))
+			names = append(names, it.role(u.Field(i).Name()))
+			vals = append(vals, it.zeroOf(u.Field(i).Type()))
 		}
 		name := typeShort(t)
 		if n, ok := t.(*types.Named); ok {
@@ -351,14 +355,22 @@ func setField(base *Term, f string, v *Term, fieldNames []string) *Term {
 	return MkStruct("", fieldNames, vals)
 }
 
-func structFieldNames(t types.Type) []string {
+// fieldRole is the active renaming (set by Run; the interpreter is single-goroutine per instance).
+func (it *Interp) role(n string) string {
+	if r, ok := it.FieldRole[n]; ok {
+		return r
+	}
+	return n
+}
+
+func (it *Interp) structFieldNames(t types.Type) []string {
 	st, ok := elemType(t).Underlying().(*types.Struct)
 	if !ok {
 		return nil
 	}
 	var out []string
 	for i := 0; i < st.NumFields(); i++ {
-		out = append(out, st.Field(i).Name())
+		out = append(out, it.role(st.Field(i).Name()))
 	}
 	return out
 }
@@ -449,22 +461,22 @@ func (it *Interp) eval(fr *frame, v ssa.Value, st *State) *Term {
 		st.nCell++
 		id := st.nCell
 		et := elemType(x.Type())
-		init := zeroOf(et)
+		init := it.zeroOf(et)
 		if at, ok := et.Underlying().(*types.Array); ok {
-			init = zeroOf(at.Elem())
+			init = it.zeroOf(at.Elem())
 		}
 		st.Mem[id] = init
 		return &Term{Op: "cell", K: fmt.Sprint(id)}
 	case *ssa.FieldAddr:
 		base := it.val(fr, x.X, st)
-		names := structFieldNames(x.X.Type())
+		names := it.structFieldNames(x.X.Type())
 		n := fmt.Sprintf("#%d", x.Field)
 		if x.Field < len(names) {
 			n = names[x.Field]
 		}
 		return &Term{Op: "fieldaddr", K: n, Args: []*Term{base}, Names: names}
 	case *ssa.Field:
-		names := structFieldNames(x.X.Type())
+		names := it.structFieldNames(x.X.Type())
 		n := fmt.Sprintf("#%d", x.Field)
 		if x.Field < len(names) {
 			n = names[x.Field]
@@ -677,14 +689,14 @@ func (it *Interp) external(cal *ssa.Function, args []*Term, st *State, pos strin
 		f := args[0]
 		name := f.String()
 		if f.Op == "fieldaddr" {
-			name = f.K
+			name = it.role(f.K)
 		}
 		k(st, []*Term{Leaf("aload", fmt.Sprintf("%s#%d", name, st.nCall))})
 	case "(*sync/atomic.Value).Store":
 		f := args[0]
 		name := f.String()
 		if f.Op == "fieldaddr" {
-			name = f.K
+			name = it.role(f.K)
 		}
 		st.Events = append(st.Events, Event{Kind: "settingstore", Name: name, Args: args[1:], Pos: pos})
 		k(st, nil)
@@ -719,7 +731,7 @@ func (it *Interp) mapOp(fr *frame, c *ssa.Call, meth string, args []*Term, st *S
 		switch meth {
 		case "Load", "LoadAndDelete", "LoadOrStore", "LoadAndStore", "Compute", "LoadOrCompute":
 			if sig.Results().Len() > 0 {
-				zeroV = zeroOf(sig.Results().At(0).Type())
+				zeroV = it.zeroOf(sig.Results().At(0).Type())
 			}
 		}
 	}
